@@ -78,7 +78,13 @@ Definition proj_match (en : entry) (c : config) (m : answer) (o : oans) : bool :
   | None => false
   end.
 
+(** the projection "success status or not" presupposes that the configured error
+    statuses are not success statuses themselves: with a 1xx/2xx override in force
+    the comparison is left to the (non-fatal) exact statistics *)
 Definition corr (k : case) : bool :=
+  negb (forallb (fun z => negb (success_like z))
+          [ov_authn (c_respond (k_cfg k)); ov_authz (c_respond (k_cfg k)); ov_comm (c_respond (k_cfg k));
+           ov_precond (c_respond (k_cfg k)); ov_norule (c_respond (k_cfg k)); ov_internal (c_respond (k_cfg k))]) ||
   proj_match Decision (k_cfg k) (serve Decision (k_cfg k) (k_l k) (k_q k)) (k_dec k) &&
   proj_match Proxy (k_cfg k) (serve Proxy (k_cfg k) (k_l k) (k_q k)) (k_prx k) &&
   proj_match Envoy (k_cfg k) (serve Envoy (k_cfg k) (k_l k) (k_q k)) (k_env k).
